@@ -266,7 +266,7 @@ def run_into(chk, pid, binary, sc, tier):
         log("universe: %d file sets (<= %d files from a pool of %d), %d distinct states, TLC %.0fs%s" % (len(sets), maxfiles, pool.count(",") + 1, res.distinct, res.wall, " (cached)" if res.cached else ""))
         # repetitions: C12 is the property about run-to-run variation, C07 / C16 need few invocations per set
         many = pid == "C12"
-        runs, moreruns = ((8, 30) if many else (3, 6)) if tier == "quick" else ((20, 200) if many else (5, 20))
+        runs, moreruns = ((8, 30) if many else (3, 6)) if tier == "quick" else ((10, 100) if many else (5, 20))
         run_sets(chk, pid, binary, sc, sets, "u", runs, moreruns, 2 if many else 0, kf)
         allsets = list(sets.values())
         gsets, gres = given_sets(chk, pid, binary, sc, random_sets(300 if tier == "quick" else 3000, SEED), kf, runs, moreruns, 2 if many else 0)
